@@ -8,7 +8,7 @@
 namespace Frugal.Skeleton
 def decoder : String := "ccc4122215142eb0a0ebde38"
 def encoder : String := "5cbdaefa998ed87261c39697"
-def resolver : String := "0b2d55f16e25bb059dc5dd7a"
+def resolver : String := "fc893de27c26c5f74381c563"
 /-- full text (not only control structure) of `structDesc`, `tField`, `tType`, `fromDefsFields`,
     `fromDefsField`, `GetField`, `newTType`: the descriptor tables every codec theorem takes for granted -/
 def descTable : String := "cbfebd4eaff63fd247cc0a76"
